@@ -310,3 +310,18 @@ func vecSpace(seed int64, allRecvRoutes bool) *space {
 	s.addParentWindows(s.parents[0], false)
 	return s
 }
+
+// rank1Fill overwrites the fill of a space with an outer product u vᵀ laid
+// out with the given row length: every square window (n >= 2) of the parent
+// with that stride is exactly singular or, after rounding in the elimination,
+// numerically singular, so Solve/Inverse take their error-returning paths
+// (Condition errors, finite or infinite) under every aliasing geometry.
+func rank1Fill(s *space, cols int) *space {
+	u := []float64{1, 2, -3, 5, 7, -4, 9}
+	v := []float64{3, -1, 2, 5, -7, 4, 11}
+	for i := range s.fill {
+		s.fill[i] = u[(i/cols)%len(u)] * v[(i%cols)%len(v)]
+	}
+	s.name += "-rank1"
+	return s
+}
